@@ -5,7 +5,7 @@ LEVEL = "model_checking"
 
 
 def scenarios(tier, seed):
-    return (fam_expr.family_N(tier, seed) + fam_expr.family_D(tier, seed) + fam_expr.family_R(tier, seed) + fam_expr.family_K(tier, seed)
+    return (fam_expr.family_N(tier, seed) + fam_expr.family_D(tier, seed) + fam_expr.family_R(tier, seed) + fam_expr.family_K(tier, seed) + fam_expr.family_G(tier, seed)
             + fam_expr.family_S(tier, seed, per_kind=2 if tier == "quick" else 20)
             # satisfiability is also judged inside histories: after failing calls, list / rangelist edits, calls that only
             # reference fields of other objects
@@ -22,7 +22,7 @@ def run(tier, seed, limit=0):
         scs = scs[:limit]
     chk.run_scenarios(scs, "Trace_VscRand")
     chk.run_mc("MC_VscRand", {"MaxLevel": 4 if tier == "quick" else 6}, workers=12, label="A-level API machine on world W-flags")
-    return chk.finish(LEVEL, "families N (non-random operands / folded conditions), D (unsat and |Sol|=1 duals), K (statements naming no field), R (seeded random "
+    return chk.finish(LEVEL, "families N (non-random operands / folded conditions), D (unsat and |Sol|=1 duals), K (statements naming no field), G (empty ranges), R (seeded random "
                       "programs), S; every program: calls + exhaustive pin-probe truth table judged row by row against Sol; "
                       "non-trivial = accepted scenario with distinct event content",
                       ["TLC 1.8; BV/Expr reference semantics; world->DSL compiler"])
